@@ -23,12 +23,15 @@ package snapshot
 //@   ensures forall d int :: has(result, d) ==> result[d] != nil
 //@   modifies nothing
 
-//@ func (*Engine).TakeSnapshot props C10,C03
+// The clock may advance while the snapshot is written (flag clockadvances): the time read first (msec) names the snapshot
+// directory, is recorded in the manifest and becomes the last-save time.
+//@ func (*Engine).TakeSnapshot clockadvances props C10,C03
 //@   requires engine.clock != nil
 //@   ensures {C10} failed-untouched: result != nil ==> $lastsave == old($lastsave)
-//@   ensures {C03} lastsave: result == nil ==> $lastsave == unixmilli($now)
+//@   ensures {C03} lastsave: result == nil ==> $lastsave >= unixmilli(old($now)) && $lastsave <= unixmilli($now)
 //@   ensures {C03} counted: result == nil ==> atomic(engine.changeCount) == 0
-//@   assert @Marshal#2 {C10} manifest-names-dir: manifest.LatestSnapshotMilliseconds == msec && msec == unixmilli($now)
+//@   assert @Marshal#2 {C10} manifest-names-dir: manifest.LatestSnapshotMilliseconds == msec
+//@   assert @setLatestSnapshotTimeFunc#0 {C03,C10} lastsave-is-dir: msec == manifest.LatestSnapshotMilliseconds
 //@   modifies *
 
 // The automatic-snapshot goroutine: an iteration that does not take a snapshot found fewer changes than the threshold.
